@@ -49,3 +49,45 @@ func vpH_T_concrete1() {
 	}
 	vpReach("concrete1 end")
 }
+
+func init() {
+	vpRegister("vpH_C01_build", vpH_C01_build)
+	vpRegister("vpH_C01_wide", vpH_C01_wide)
+}
+
+func vpC01Check(g *vpGen, docs []*vpDoc, mode uint32) {
+	g.done()
+	seg := vpBuild(docs, mode)
+	exp := vpBuildExpect(docs, nil)
+	obs := vpObserve(seg, []string{"zz"}, []string{"q"})
+	vpMatchesModel("built", obs, exp, vpMatchOpts{})
+}
+
+// C01: every batch of <= 2 (thorough: 3) documents over the templates, every
+// chunk mode of vpModes, all numeric values symbolic in their small ranges.
+func vpH_C01_build() {
+	g := vpNewGen(0)
+	max := 2
+	if vpThorough() {
+		max = 3
+	}
+	docs := g.batch("b", 0, max, vpAllTemplates())
+	mode := g.mode("b")
+	vpC01Check(g, docs, mode)
+	vpReach("C01 build end")
+}
+
+// C01 with one wide value at a time (full-width frequencies / positions /
+// lengths): 1 or 2 documents.
+func vpH_C01_wide() {
+	g := vpNewGen(12)
+	vpAssume(g.wide >= 0)
+	max := 1
+	if vpThorough() {
+		max = 2
+	}
+	docs := g.batch("b", 1, max, []int{2, 3, 4, 5, 7, 8})
+	mode := g.mode("b")
+	vpC01Check(g, docs, mode)
+	vpReach("C01 wide end")
+}
